@@ -28,6 +28,8 @@ def cases(draw, tier):
             if r < 7:
                 item[0] += 1
                 steps.append({'op': 'cput', 's': 0, 'v': item[0]})
+                if draw(st.integers(0, 5)) == 0:
+                    steps[-1]['defer'] = draw(st.sampled_from([0, 0, 0.5, 1, 2]))
             elif r < 9:
                 steps.append(sl())
             elif r < 11:
